@@ -78,6 +78,13 @@ class _BlackboxSimulatorBackend(SimulatorBackend):
             resource = int(result[resource_attr])
             self._resource_paused_for_trial[trial_id] = resource
 
+    def stdout(self, trial_id: int) -> List[str]:
+        # Trials are not run as scripts, there are no log files
+        return []
+
+    def stderr(self, trial_id: int) -> List[str]:
+        return []
+
     def _filter_config(self, config: Dict[str, Any]) -> Dict[str, Any]:
         config_space = self.blackbox.configuration_space
         return {k: v for k, v in config.items() if k in config_space}
